@@ -11,9 +11,9 @@ from .mirparse import skip_balanced, split_top
 
 
 def norm(callee):
-    c = re.sub(r"<'\w+>", '', callee)
+    c = strip_generics(callee)
+    c = re.sub(r"<'\w+>", '', c)
     c = re.sub(r"'\w+,? ?", '', c)
-    c = strip_generics(c)
     return c
 
 
@@ -416,9 +416,9 @@ class Summaries:
                 st2.add(bad)
                 yield st2, Panic(what)
             good = z3.And(r >= lo, r <= hi)
-            if I.feasible(st, good):
+            if I.quick(good) is not True:
                 st.add(good)
-                yield st, wrap(r)
+            yield st, wrap(r)
 
         def h_u128_binop(st, fn, callee, args, dty):
             k = norm(callee)
